@@ -172,7 +172,13 @@ func isReserved(up string) bool {
 	return false
 }
 
+// boundary values for size classification (imm8 / imm16 / imm32, sign extension, disp8 / disp32)
+var boundaryImms = []string{"0x7f", "0x80", "0xff", "0x100", "127", "128", "255", "256", "0x7fff", "0x8000", "0xffff", "0x10000", "0x7fffffff", "0x80000000", "0xffffffff", "-1", "-128", "-129", "-32768", "0", "1"}
+
 func (g *progGen) imm(bits int) string {
+	if g.r.Chance(1, 6) {
+		return pick(g.r, boundaryImms)
+	}
 	var v uint64
 	switch g.r.Intn(4) {
 	case 0:
@@ -197,6 +203,9 @@ func (g *progGen) imm(bits int) string {
 }
 
 func (g *progGen) mem() string {
+	if g.r.Chance(1, 12) { // segment overrides, scaled index, displacements on the disp8 / disp32 boundary
+		return pick(g.r, []string{"[ES:BX]", "[CS:0x10]", "[DS:SI]", "[EBX+ECX*4+8]", "[ESI*2]", "[EAX+EBX]", "[EBP+127]", "[EBP+128]", "[EBX-128]", "[EBX-129]", "[BX+127]", "[BX+128]", "[SI-1]", "[ES:DI+2]", "[ESP]", "[ESP+EAX*2]"})
+	}
 	if len(g.dotted) > 0 && g.r.Chance(1, 6) {
 		return "[" + pick(g.r, g.dotted) + "]"
 	}
